@@ -6,6 +6,7 @@ package sm4_test
 
 import (
 	"bytes"
+	"crypto/cipher"
 	"fmt"
 	"testing"
 
@@ -51,8 +52,27 @@ func c07Judge(t vt.TB, rec *stats.Recorder, c *gcmCase, open func(nonce, ct, aad
 }
 
 // verifProp_C07_Open builds the property (shared by the rapid test and the native fuzz target).
-func verifProp_C07_Open() func(*rapid.T) {
+// verifShimAEAD builds the arm64 GCM glue over the amd64 kernels (set by zz_verif_shim_hook_test.go; nil when the driver did not
+// generate the copy).
+var verifShimAEAD func(key []byte, nonceSize, tagSize int) (cipher.AEAD, error)
+
+func verifProp_C07_Open() func(*rapid.T) { return verifProp_C07_OpenVia(false) }
+
+// The same battery against the Go glue of the arm64 path (length checks, tag handling, dispatch), which no amd64 caller reaches.
+func TestVerif_C07_OpenArm64Glue(t *testing.T) {
+	t.Cleanup(stats.FlushAll)
+	if verifShimAEAD == nil {
+		stats.Get("C07", "open-arm64-glue").Skipped("arm64 glue copy not generated")
+		t.Skip()
+	}
+	rapid.Check(t, verifProp_C07_OpenVia(true))
+}
+
+func verifProp_C07_OpenVia(shim bool) func(*rapid.T) {
 	rec := stats.Get("C07", "open")
+	if shim {
+		rec = stats.Get("C07", "open-arm64-glue")
+	}
 	rec.Rule("rapid: a sealed message from the C06 generator (all length classes, nonce lengths, tag sizes, counter wrap), then mutations, each opened from a fresh copy of the ciphertext: none; flip one drawn bit of ciphertext body / tag / nonce / aad (several per message; every tag bit for one message in eight); drop or append 1..20 bytes at either end; truncate the tag by 1..4 bytes under the same AEAD; swap two blocks; strings shorter than the tag (0..tag-1 bytes); extend aad; structured multi-position changes (the same delta at two positions 1/2/4/8 bytes apart in tag or body, a delta repeated with period 4 or 8 over the tag, the two tag halves swapped, an equal delta on both tag halves, 2-3 independent bit flips). Oracle: unchanged -> (plaintext,nil); otherwise err != nil and nil slice, no panic; verdict cross-checked with gcmref.Open. Every evaluation (message x mutation) is one case; non-trivial: any mutated case, or authentic with a tail / wide kernel / non-default tag or nonce; distinct by (message, mutation).")
 	return func(t *rapid.T) {
 		c := drawGCMCase(t)
@@ -64,6 +84,12 @@ func verifProp_C07_Open() func(*rapid.T) {
 		if err != nil {
 			vt.Fail(t, rec, "C07:construct", "construct: %v", err)
 			return
+		}
+		if shim {
+			if a, err = verifShimAEAD(c.Key, len(c.Nonce), c.TagSize); err != nil {
+				rec.Skipped("arm64 glue copy cannot be constructed here: " + err.Error())
+				return
+			}
 		}
 		sealed := c.want() // the reference's output: C06 judges Seal itself
 		open := func(n, ct, ad []byte) ([]byte, error) { c.dirty(); return a.Open(nil, n, ct, ad) }
